@@ -22,7 +22,7 @@ RULE = ("(a) every fault site (C12 matrix + list/tuple/number given to String an
         "headers, quoted newlines, NUL bytes, non-UTF-8 bytes, 1 MB field, nan/inf/1e400 cells; (d) open() raising at the n-th call; "
         "(e) mismatched shapes / weights / empty lists; distinct by (class, fault/edit kind, command, outcome class)")
 SCRATCH_PER_CASE = True      # no directory is used beyond the case that asked for it
-REQUIRED_COUNTERS = ["edited_programs_rerun", "api_rings_built", "boundary_outcomes_recorded", "mpilot_errors_seen", "cli_runs_checked", "error_messages_rendered", "io_faults_injected", "csv_faults_run", "text_corruptions_run", "cli_subprocess_runs", "netcdf_faults_run", "api_built_fault_models", "api_object_reference_models", "near_type_values_given"]
+REQUIRED_COUNTERS = ["cli_runs_on_syntax_errors", "edited_programs_rerun", "api_rings_built", "boundary_outcomes_recorded", "mpilot_errors_seen", "cli_runs_checked", "error_messages_rendered", "io_faults_injected", "csv_faults_run", "text_corruptions_run", "cli_subprocess_runs", "netcdf_faults_run", "api_built_fault_models", "api_object_reference_models", "near_type_values_given"]
 ASSUMPTIONS = ["SyntaxError vs MPilotError for malformed text: either is allowed", "command files that are not valid UTF-8, KeyboardInterrupt and MemoryError are out of scope",
                "the CLI's behaviour for SyntaxError is not specified by the property and not judged"]
 
@@ -113,7 +113,7 @@ def cases(ctx):
                     "A = C(P = " + "9" * 5000 + ")", "A = C(P = -" + "1" * 4301 + ")", "A = C(P = [1, " + "7" * 6000 + "])", "A = C(P = [k: " + "3" * 4400 + "])", "A = C(P = 0." + "9" * 5000 + ")",
                     "A = C(P = " + "9" * 5000 + "e5)", "A = C(P = 1e" + "9" * 500 + ")", "A = Sum(InFieldNames = [B], Weights = [" + "9" * 5000 + "])", "A = C(P = " + "0" * 5000 + "1)"):
         if ctx.shard == 0:
-            yield {"kind": "text", "text": special, "table": None}
+            yield {"kind": "text", "text": special, "table": None, "special": True}
     # very deep models (listed top-down and bottom-up) and a very long ring: whatever happens must be an MPilot error
     if ctx.shard == 0:
         for n in (1100, 3000):
@@ -561,13 +561,32 @@ def run_text(ctx, case):
     b = _Boundary(text, d)
     ctx.feature(("text", outcome, type(b.exc).__name__ if b.exc else "ok", b.stage))
     if _classify(ctx, b, "text", detail) and len(text) < 3000 and "\x00" not in text and not case.get("nocli"):
-        if ctx.rng("cli", len(text)).random() < 0.25:
+        if ctx.rng("cli", len(text)).random() < 0.25 or case.get("special"):      # (every hand-written text also goes through the tool)
             d2 = ctx.scratch()
             if case.get("table"):
                 models.write_table(case["table"], d2)
             # the CLI re-reads the file with universal newlines; only judge texts it sees unchanged
             if "\r" not in text:
                 _cli(ctx, text, d2, "text", detail, api_exc=b.exc, api_dir=d)
+    elif isinstance(b.exc, SyntaxError) and len(text) < 3000 and "\x00" not in text and "\r" not in text and not case.get("nocli") \
+            and (case.get("special") or ctx.rng("cli-syntax", len(text)).random() < 0.15):
+        # a text the parser refuses, through the tool: the tool stops with that syntax error or with a report of its own and a
+        # non-zero exit status - never with an exception of another kind
+        from click.testing import CliRunner
+        from mpilot.cli.mpilot import main
+        d2 = ctx.scratch()
+        path = os.path.join(d2, "model.mpt")
+        with open(path, "w", encoding="utf-8") as f:
+            f.write(text)
+        try:
+            res = CliRunner(mix_stderr=False).invoke(main, ["eems-csv", path])
+        except TypeError:
+            res = CliRunner().invoke(main, ["eems-csv", path])
+        ctx.count("cli_runs_on_syntax_errors")
+        if res.exception is not None and not isinstance(res.exception, (SystemExit, SyntaxError)):
+            ctx.fail("text:cli-dies-with-%s-on-a-syntax-error" % type(res.exception).__name__, dict(detail, error=repr(res.exception)[:300], syntax_error=str(b.exc)[:200]))
+        elif res.exception is None and res.exit_code == 0:
+            ctx.fail("text:cli-exit-0-on-a-syntax-error", dict(detail, syntax_error=str(b.exc)[:200]))
 
 
 def _write_bad_csv(rng, table, d, fault):
